@@ -59,7 +59,7 @@ type writerSealer interface {
 func c08HashSub() *engine.Sub {
 	return &engine.Sub{
 		Name: "cid-arithmetic",
-		Rule: "every token of the d<=1 option universe x algorithm: CID of ToSealed, of ToSealedWriter (vs the bytes the sink received), of FromSealed and FromSealedReader (generic and typed, 6 chunkings) all equal 01 71 12 20 || sha256(bytes) computed with crypto/sha256; non-trivial = constructor-accepted tokens",
+		Rule: "every token of the d<=1 option universe x algorithm, plus tokens with fields of 600, 1023, 1024, 5120 and 70000 bytes: CID of ToSealed, of ToSealedWriter (vs the bytes the sink received), of FromSealed and FromSealedReader (generic and typed, 6 chunkings) all equal 01 71 12 20 || sha256(bytes) computed with crypto/sha256; non-trivial = constructor-accepted tokens",
 		Bound: func(t string) string { return "d<=1 option deviations, 4 (quick) / 7 (thorough) algorithms, 6 chunkings" },
 		Gen: func(tier string, emit func(any) bool) {
 			algs := []string{"ed25519", "secp256k1", "p256", "p384"}
@@ -77,6 +77,17 @@ func c08HashSub() *engine.Sub {
 						return
 					}
 				}
+			}
+			// tokens with large fields: the encoders and hashers see single writes of >= 512, 1024, 4096, 65536 bytes
+			for _, kind := range []string{"dlg", "inv"} {
+				for _, big := range []string{"k=str-600", "k=str-1023", "k=str-1024", "k=str-5k", "k=bytes-1024", "k=bytes-70k", "bounds"} {
+					if !emit(&c07Case{Spec: TokSpec{Kind: kind, Alg: "ed25519", Opts: map[string]string{"meta": big, "nonce": "12"}}}) {
+						return
+					}
+				}
+			}
+			if !emit(&c07Case{Spec: TokSpec{Kind: "inv", Alg: "p256", Opts: map[string]string{"args": "k=str-5k", "meta": "k=bytes-70k"}}}) {
+				return
 			}
 		},
 		NewCase: func() any { return &c07Case{} },
@@ -447,6 +458,9 @@ var c08BaseSpecs = map[string]TokSpec{
 	"dlg": {Kind: "dlg", Opts: map[string]string{"pol": "nested", "meta": "k=map", "nonce": "12", "exp": "whole"}},
 	"inv": {Kind: "inv", Opts: map[string]string{"args": "k=float1.5", "meta": "keys:c,a,b", "nonce": "12", "iat": "whole", "prf": "3", "cause": "cid"}},
 	"dlg2": {Kind: "dlg", Opts: map[string]string{"pol": "values", "nonce": "12"}},
+	// integers and string / bytes / list lengths on both sides of every CBOR head-width boundary (23|24, 2^8, 2^16, 2^32)
+	"inv-bounds": {Kind: "inv", Opts: map[string]string{"args": "bounds", "nonce": "12", "iat": "none"}},
+	"dlg-bounds": {Kind: "dlg", Opts: map[string]string{"meta": "bounds", "nonce": "12"}},
 }
 
 func c08Base(base, alg string) []byte {
@@ -513,7 +527,11 @@ func c08CanonSub() *engine.Sub {
 				algs = []string{"ed25519", "p256", "secp256k1", "p384", "rsa2048"}
 			}
 			for _, alg := range algs {
-				for _, base := range []string{"dlg", "inv", "dlg2"} {
+				bases := []string{"dlg", "inv", "dlg2"}
+				if alg == "ed25519" {
+					bases = append(bases, "inv-bounds", "dlg-bounds")
+				}
+				for _, base := range bases {
 					orig := c08Base(base, alg)
 					oh := hex.EncodeToString(orig)
 					root, _, _ := refmodel.ParseCbor(orig)
